@@ -140,7 +140,13 @@ func TestPropSCIONClient(t *testing.T) {
 		var stale []byte
 		ncalls := rapid.IntRange(1, 8).Draw(t, "calls")
 		for k := 0; k < ncalls; k++ {
-			faults := rapid.SliceOfN(rapid.SampledFrom([]string{"none", "none", "none", "none", "none", "drop-request", "drop-response", "drop-response", "duplicate", "stale-first", "delayed", "force-basic", "snap-rx", "snap-tx", "snap-both"}), 3, 3).Draw(t, "faults")
+			faults := rapid.SliceOfN(rapid.SampledFrom([]string{"none", "none", "none", "none", "none", "drop-request", "drop-response", "drop-response", "duplicate", "stale-first", "delayed", "force-basic", "snap-rx", "snap-tx", "snap-both", "stale-twice", "unsynchronized", "kiss-of-death"}), 3, 3).Draw(t, "faults")
+			if rapid.IntRange(0, 5).Draw(t, "scenario") == 0 {
+				faults = []string{"none", rapid.SampledFrom([]string{"drop-response", "drop-request", "stale-twice", "unsynchronized", "kiss-of-death"}).Draw(t, "failing"), rapid.SampledFrom([]string{"stale-first", "stale-twice"}).Draw(t, "late")}
+				if rapid.Bool().Draw(t, "scenario-shift") {
+					faults = []string{faults[1], faults[2], "none"}
+				}
+			}
 			var plans []netlab.Plan
 			for _, fl := range faults {
 				p := netlab.Plan{Theta: nextTheta(t)}
@@ -154,10 +160,38 @@ func TestPropSCIONClient(t *testing.T) {
 				case "stale-first":
 					st := stale
 					p.Outs = func(ex *netlab.Exchange) []netlab.Out {
+						st := st
+						if ex.PrevGenuine != nil {
+							st = ex.PrevGenuine // the reply to the request just before this one, possibly of the same call
+						}
 						if st == nil {
 							return []netlab.Out{{Data: ex.Genuine}}
 						}
 						return []netlab.Out{{Data: st}, {Data: ex.Genuine}}
+					}
+				case "stale-twice":
+					st := stale
+					p.Outs = func(ex *netlab.Exchange) []netlab.Out {
+						st := st
+						if ex.PrevGenuine != nil {
+							st = ex.PrevGenuine
+						}
+						if st == nil {
+							return []netlab.Out{{Data: ex.Genuine}}
+						}
+						return []netlab.Out{{Data: st}, {Data: st}, {Data: ex.Genuine}}
+					}
+				case "unsynchronized", "kiss-of-death":
+					kind := fl
+					p.Outs = func(ex *netlab.Exchange) []netlab.Out {
+						d := append([]byte(nil), ex.Genuine...)
+						if kind == "unsynchronized" {
+							d[0] |= 0xc0
+						} else {
+							d[1] = 0
+							copy(d[12:16], "RATE")
+						}
+						return []netlab.Out{{Data: d}}
 					}
 				case "delayed":
 					p.Delay = time.Duration(rapid.Int64Range(1, 15).Draw(t, "delay-ms")) * time.Millisecond
